@@ -8,7 +8,12 @@ COQ_CHECK = "M_Discovery.check_case"
 OBLIGATIONS = ["disc_comp_inv_partial", "disc_comp_converges_partial", "guard_check_sound",
                "callbacks_computation_added_partial", "callbacks_computation_removed_partial",
                "callbacks_agent_added_partial", "callbacks_replica_added_partial",
-               "converges_unguarded_refuted", "removal_agreement_refuted", "replica_agreement_refuted"]
+               "converges_unguarded_refuted", "removal_agreement_refuted", "replica_agreement_refuted",
+               "disc_agent_inv", "disc_agent_converges", "agent_guard_check_sound",
+               "agent_agreement_unguarded_refuted",
+               "disc_replica_inv", "disc_replica_converges", "replica_guard_check_sound",
+               "disc_comp2_inv_partial", "disc_comp2_converges_partial",
+               "callbacks_trace_computation_added_partial"]
 N_QUICK, N_THOROUGH = 400, 6000
 PARALLEL = 8
 SHARD = 100
@@ -27,8 +32,16 @@ MODELLED = ("Directory, DirectoryComputation, Discovery, DiscoveryComputation ar
             "invariant and convergence of the computation sub-protocol for all histories/schedules under the "
             "guard 'the directory has an address for every hosting agent', callbacks fired per changing "
             "notification (computation added/removed, agent added, replica added), three refutations of the "
-            "unguarded statement. Agent and replica agreement, callback order and one-shot discarding are "
-            "checked by the correspondence run and the Python oracle only.")
+            "unguarded statement. Deepening (P_Discovery2*.v): agent sub-protocol (by name and '*') and replica "
+            "sub-protocol: in-flight invariant + positive agreement at quiescence for EVERY history (no operation "
+            "excluded) under per-step guards that are the exact negations of findings "
+            "C20-unregister-agent-refused / C20-replica-of-unknown-computation; computation sub-protocol "
+            "re-proved including unregister_computation(c, agent) (stale un-publication ignored by the directory) "
+            "and register_computation without address (only unregister_agent excluded); callbacks along a trace: "
+            "any step that makes an entry become g fires exactly one computation_added per registration, in "
+            "order, and discards the one-shot ones. Still only checked by the correspondence run + oracle: "
+            "agreement after removal (refuted in general), callback order across kinds, exactness for the other "
+            "callback kinds.")
 META = dict(
     level_text=("Proof (Coq) over an executable model of discovery.py plugged into the generic asynchronous network "
                 "(Net.v): for every history of Discovery operations (any except unregister_agent, "
@@ -37,12 +50,17 @@ META = dict(
                 "an in-flight invariant holds and, whenever nothing travels between a subscriber and the "
                 "directory, the subscriber's entry for each computation it is subscribed to and the directory "
                 "lists is the directory's; a notification that changes an entry fires every callback registered "
-                "for it. The unguarded statement, agreement after removal and replica agreement are refuted by "
+                "for it. Deepened: the agent ('*' included) and replica sub-protocols are proved the same way for "
+                "every history under per-step guards negating the recorded findings; the computation proof now "
+                "covers unregister_computation naming an agent and register_computation without address; along "
+                "every trace a step that makes an entry become g fires exactly one computation_added callback "
+                "per registration and discards the one-shot ones. The unguarded statement, agreement after removal and replica agreement are refuted by "
                 "machine-checked witnesses (recorded findings). The model is tied to the code by replaying the "
                 "same histories and schedules on the real Directory/Discovery objects (thread-free) and comparing "
                 "every callback, exception, final table, subscription set and in-flight message."),
-    level_note=("Partial: agents and replicas sub-protocols, agreement after un-registration, callback order and "
-                "one-shot discarding rest on the correspondence run + independent oracle. Trusted: Coq "
+    level_note=("Partial: positive agreement only (agreement after un-registration is refuted); the computation theorem "
+                "still excludes unregister_agent; exact callback lists are proved for computation_added only, the other "
+                "kinds and callback order across kinds rest on the correspondence run + independent oracle. Trusted: Coq "
                 "kernel/vm_compute, M_Discovery.v + Net.v as a rendering of the Python code, the thread-free "
                 "driver (real agent threads and queues are C18/C21's subject); set iteration order of "
                 "replica_agents() is canonicalised to sorted order in the driver."),
